@@ -3,7 +3,10 @@ package main
 import (
 	"fmt"
 	"go/ast"
+	"go/token"
 	"go/types"
+	"golang.org/x/tools/go/packages"
+	"strings"
 
 	"golang.org/x/tools/go/cfg"
 )
@@ -297,5 +300,760 @@ func ruleScheduleMarkerTags(c *Ctx) {
 	o := c.check(ok, "schedule-marker-tags", lit.Pos(), "the fired promise carries resonate:schedule = schedule id and resonate:invocation = \"true\"", "the promise a schedule fires does not always carry the marker tags resonate:schedule = <schedule id> and resonate:invocation = \"true\" in the map its Tags are taken from")
 	if !ok {
 		o.Found = fmt.Sprint(got)
+	}
+}
+
+// pendingFlow: forward may-analysis for "an obligation raised at one node must be discharged before
+// the path ends". set/clear classify nodes; clearEdge classifies branch edges on which the
+// obligation is void (the empty-slice branch, the channel-closed branch). Returns the first node at
+// which a path ends (return, or end of body, or back at loopHead when given) with the obligation
+// pending, and how many discharging nodes were seen.
+func pendingFlow(g *cfg.CFG, set, clear func(ast.Node) bool, clearEdge func(b *cfg.Block, i int) bool, isEnd func(b *cfg.Block) bool, setEdges ...func(b *cfg.Block, i int) bool) (leak ast.Node, nClear int) {
+	in := make([]int, len(g.Blocks)) // 0 unvisited, 1 clean, 2 pending
+	in[0] = 1
+	flow := func(b *cfg.Block, st int) int {
+		for _, nd := range b.Nodes {
+			if clear(nd) {
+				st = 1
+			}
+			if set(nd) {
+				st = 2
+			}
+		}
+		return st
+	}
+	for changed, it := true, 0; changed && it < 6*len(g.Blocks)+16; it++ {
+		changed = false
+		for _, b := range g.Blocks {
+			if in[b.Index] == 0 {
+				continue
+			}
+			o := flow(b, in[b.Index])
+			for i, sc := range b.Succs {
+				v := o
+				if clearEdge != nil && clearEdge(b, i) {
+					v = 1
+				}
+				for _, se := range setEdges {
+					if se(b, i) {
+						v = 2
+					}
+				}
+				if v > in[sc.Index] {
+					in[sc.Index] = v
+					changed = true
+				}
+			}
+		}
+	}
+	for _, b := range g.Blocks {
+		if in[b.Index] == 0 {
+			continue
+		}
+		st := in[b.Index]
+		if isEnd != nil && isEnd(b) && st == 2 && leak == nil {
+			if len(b.Nodes) > 0 {
+				leak = b.Nodes[0]
+			} else if b.Stmt != nil {
+				leak = b.Stmt
+			}
+		}
+		for _, nd := range b.Nodes {
+			if clear(nd) {
+				nClear++
+				st = 1
+			}
+			if set(nd) {
+				st = 2
+			}
+			if rs, ok := nd.(*ast.ReturnStmt); ok && st == 2 && leak == nil {
+				leak = rs
+			}
+		}
+		if len(b.Succs) == 0 && st == 2 && leak == nil && len(b.Nodes) > 0 {
+			leak = b.Nodes[len(b.Nodes)-1]
+		}
+	}
+	return leak, nClear
+}
+
+// lenEdgeEmpty: on edge i of a block ending in a comparison of len(obj) with 0/1, is obj empty?
+func lenEdgeEmpty(info *types.Info, b *cfg.Block, i int, obj types.Object) bool {
+	if len(b.Succs) != 2 || len(b.Nodes) == 0 {
+		return false
+	}
+	cond, ok := b.Nodes[len(b.Nodes)-1].(ast.Expr)
+	if !ok {
+		return false
+	}
+	be, ok := ast.Unparen(cond).(*ast.BinaryExpr)
+	if !ok {
+		return false
+	}
+	lc, ok := ast.Unparen(be.X).(*ast.CallExpr)
+	if !ok || exprString(lc.Fun) != "len" || len(lc.Args) != 1 || !isObj(info, lc.Args[0], obj) {
+		return false
+	}
+	zero, one := exprString(be.Y) == "0", exprString(be.Y) == "1"
+	switch be.Op.String() {
+	case ">", "!=":
+		return zero && i == 1
+	case "==", "<=":
+		return zero && i == 0
+	case ">=":
+		return (one || zero) && i == 1
+	case "<":
+		return one && i == 0
+	}
+	return false
+}
+
+// ruleBatchesProcessed (C12/C16): a store worker answers every submission it takes from its queue:
+// (1) in Collect, a submission received from the channel (ok) is appended to the batch before the
+// function returns; (2) in each worker's Start loop, a collected batch reaches Process on every
+// path back to the loop head or out of the function, except along the branch on which the batch is
+// empty.
+func ruleBatchesProcessed(c *Ctx) {
+	// (1) store.Collect
+	if pk := c.P.Pkg(pkgStore); pk != nil {
+		fd := funcDecl(pk, "", "Collect")
+		if fd == nil {
+			c.und("batches/collect", 0, "store.Collect not found")
+		} else {
+			c.receivedIsKept(pk, fd, "batches/collect", true)
+		}
+	}
+	// (2) the workers
+	n := 0
+	for _, pp := range []string{pkgSqlite, pkgPostgres} {
+		pk := c.P.Pkg(pp)
+		if pk == nil {
+			continue
+		}
+		info := pk.TypesInfo
+		for _, fd := range allFuncDecls(pk) {
+			if fd.Name.Name != "Start" || fd.Recv == nil || !strings.HasSuffix(recvTypeName(fd.Recv.List[0].Type), "Worker") {
+				continue
+			}
+			key := "batches/" + pk.Name + "." + funcName(fd)
+			var sqes types.Object
+			var collectNode ast.Node
+			ast.Inspect(fd.Body, func(nd ast.Node) bool {
+				as, ok := nd.(*ast.AssignStmt)
+				if !ok || len(as.Rhs) != 1 || len(as.Lhs) < 1 {
+					return true
+				}
+				if call, ok := ast.Unparen(as.Rhs[0]).(*ast.CallExpr); ok {
+					if fn, ok := calleeOf(info, call).(*types.Func); ok && fn.Name() == "Collect" && fn.Pkg() != nil && fn.Pkg().Path() == pkgStore {
+						if id, ok := as.Lhs[0].(*ast.Ident); ok {
+							sqes = info.Defs[id]
+							if sqes == nil {
+								sqes = info.Uses[id]
+							}
+							collectNode = as
+						}
+					}
+				}
+				return true
+			})
+			if sqes == nil {
+				c.und(key, fd.Pos(), "the worker does not collect its batch with store.Collect")
+				continue
+			}
+			n++
+			g := buildCFG(pk, fd.Body)
+			set := func(nd ast.Node) bool { return nd == collectNode }
+			clear := func(nd ast.Node) bool {
+				found := false
+				ast.Inspect(nd, func(x ast.Node) bool {
+					if call, ok := x.(*ast.CallExpr); ok {
+						if se, ok := ast.Unparen(call.Fun).(*ast.SelectorExpr); ok && se.Sel.Name == "Process" && len(call.Args) == 1 && isObj(info, call.Args[0], sqes) {
+							found = true
+						}
+					}
+					return true
+				})
+				return found
+			}
+			clearEdge := func(b *cfg.Block, i int) bool { return lenEdgeEmpty(info, b, i, sqes) }
+			// the loop head: collecting the next batch with one pending loses the previous one — the
+			// set node itself re-raises, so a pending state ENTERING the collect node is the leak
+			var leak ast.Node
+			l, nClear := pendingFlow(g, set, clear, clearEdge, func(b *cfg.Block) bool {
+				for _, nd := range b.Nodes {
+					if nd == collectNode {
+						return b.Nodes[0] == collectNode
+					}
+				}
+				return false
+			})
+			leak = l
+			// the worker leaves its loop exactly when Collect reported the queue closed
+			var okObj types.Object
+			if as, isAs := collectNode.(*ast.AssignStmt); isAs && len(as.Lhs) == 2 {
+				if id, isId := as.Lhs[1].(*ast.Ident); isId {
+					okObj = info.Defs[id]
+					if okObj == nil {
+						okObj = info.Uses[id]
+					}
+				}
+			}
+			closedEdge := func(b *cfg.Block, i int) []string {
+				if len(b.Succs) != 2 || len(b.Nodes) == 0 || okObj == nil {
+					return nil
+				}
+				cond, isExpr := b.Nodes[len(b.Nodes)-1].(ast.Expr)
+				if !isExpr {
+					return nil
+				}
+				cond = ast.Unparen(cond)
+				neg := false
+				if u, isU := cond.(*ast.UnaryExpr); isU && u.Op.String() == "!" {
+					neg, cond = true, ast.Unparen(u.X)
+				}
+				if !isObj(info, cond, okObj) {
+					return nil
+				}
+				if (i == 0) == neg {
+					return []string{"closed"}
+				}
+				return []string{"open"}
+			}
+			exits := mustFacts(g, func(ast.Node) []string { return nil }, closedEdge, func(nd ast.Node) bool { _, isRet := nd.(*ast.ReturnStmt); return isRet })
+			okExit, nExit := true, 0
+			for _, f := range exits {
+				nExit++
+				if !f["closed"] {
+					okExit = false
+				}
+			}
+			// and on the closed edge it does leave: the loop head is not reachable from it
+			closedLoops := false
+			for _, b := range g.Blocks {
+				for i := range b.Succs {
+					if fs := closedEdge(b, i); len(fs) == 1 && fs[0] == "closed" {
+						seen := map[int32]bool{}
+						var walk func(x *cfg.Block)
+						walk = func(x *cfg.Block) {
+							if seen[x.Index] {
+								return
+							}
+							seen[x.Index] = true
+							for _, nd := range x.Nodes {
+								if nd == collectNode {
+									closedLoops = true
+								}
+							}
+							for _, sc := range x.Succs {
+								walk(sc)
+							}
+						}
+						walk(b.Succs[i])
+					}
+				}
+			}
+			c.check(okExit && nExit >= 1 && !closedLoops, key+"/exit-iff-closed", fd.Pos(), "the worker returns exactly when Collect reported its queue closed", "the store worker's exit no longer coincides with `queue closed`: it stops serving an open queue (every later store submission hangs) or keeps collecting from a closed one")
+			switch {
+			case nClear == 0:
+				c.bad(key, fd.Pos(), "the worker never hands its batch to Process")
+			case leak != nil:
+				c.bad(key, leak.Pos(), "a collected, non-empty batch can be dropped: a path from store.Collect leads back to the next Collect (or out of the worker) without Process(sqes): those requests are never answered")
+			default:
+				c.ok(key, fd.Pos(), "every non-empty batch reaches Process before the next Collect or the worker's exit")
+			}
+		}
+	}
+	c.count("store_worker_loops", n)
+	c.floor("store worker loops", n, 2)
+}
+
+// receivedIsKept: in a function that drains a channel into a slice it returns (store.Collect,
+// api.DequeueSQE, aio.DequeueCQE): an entry received with ok == true is appended to the returned
+// slice before the function returns or receives again; with flag, the function's second result is
+// false exactly when the channel was closed.
+func (c *Ctx) receivedIsKept(pk *packages.Package, fd *ast.FuncDecl, key string, flag bool) {
+	info := pk.TypesInfo
+	var batch types.Object
+	if n := len(fd.Body.List); n > 0 {
+		if rs, ok := fd.Body.List[n-1].(*ast.ReturnStmt); ok && len(rs.Results) >= 1 {
+			if id, ok := ast.Unparen(rs.Results[0]).(*ast.Ident); ok {
+				batch = info.Uses[id]
+			}
+		}
+	}
+	var recvObj, okObj types.Object
+	var recvNode ast.Node
+	ast.Inspect(fd.Body, func(n ast.Node) bool {
+		as, ok := n.(*ast.AssignStmt)
+		if !ok || len(as.Lhs) != 2 || len(as.Rhs) != 1 {
+			return true
+		}
+		if u, ok := ast.Unparen(as.Rhs[0]).(*ast.UnaryExpr); ok && u.Op.String() == "<-" {
+			if a, ok := as.Lhs[0].(*ast.Ident); ok {
+				recvObj = info.Defs[a]
+			}
+			if b, ok := as.Lhs[1].(*ast.Ident); ok {
+				okObj = info.Defs[b]
+			}
+			recvNode = as
+		}
+		return true
+	})
+	if batch == nil || recvObj == nil || okObj == nil {
+		c.und(key, fd.Pos(), "receive `sqe, ok := <-c` or the returned batch not found")
+	} else {
+		g := buildCFG(pk, fd.Body)
+		set := func(n ast.Node) bool { return n == recvNode }
+		clear := func(n ast.Node) bool {
+			as, ok := n.(*ast.AssignStmt)
+			if !ok || len(as.Lhs) != 1 || len(as.Rhs) != 1 || !isObj(info, as.Lhs[0], batch) {
+				return false
+			}
+			call, ok := ast.Unparen(as.Rhs[0]).(*ast.CallExpr)
+			if !ok || exprString(call.Fun) != "append" || len(call.Args) < 2 || !isObj(info, call.Args[0], batch) {
+				return false
+			}
+			for _, a := range call.Args[1:] {
+				if isObj(info, a, recvObj) {
+					return true
+				}
+			}
+			return false
+		}
+		clearEdge := func(b *cfg.Block, i int) bool { // the channel was closed: nothing was received
+			if len(b.Succs) != 2 || len(b.Nodes) == 0 {
+				return false
+			}
+			cond, ok := b.Nodes[len(b.Nodes)-1].(ast.Expr)
+			if !ok {
+				return false
+			}
+			cond = ast.Unparen(cond)
+			neg := false
+			if u, ok := cond.(*ast.UnaryExpr); ok && u.Op.String() == "!" {
+				neg, cond = true, ast.Unparen(u.X)
+			}
+			if !isObj(info, cond, okObj) {
+				return false
+			}
+			return (i == 0) == neg // edge on which ok is false
+		}
+		// Collect reports false exactly when the queue was closed (the worker exits on false)
+		closedEdge := func(b *cfg.Block, i int) []string {
+			if clearEdge(b, i) {
+				return []string{"closed"}
+			}
+			return nil
+		}
+		rets := mustFacts(g, func(ast.Node) []string { return nil }, closedEdge, func(n ast.Node) bool { _, ok := n.(*ast.ReturnStmt); return ok })
+		okFlag, nFalse := true, 0
+		var flagPos ast.Node
+		for n, f := range rets {
+			rs := n.(*ast.ReturnStmt)
+			if len(rs.Results) != 2 {
+				continue
+			}
+			switch exprString(rs.Results[1]) {
+			case "false":
+				nFalse++
+				if !f["closed"] {
+					okFlag, flagPos = false, rs
+				}
+			case "true":
+				if f["closed"] {
+					okFlag, flagPos = false, rs
+				}
+			default:
+				okFlag, flagPos = false, rs
+			}
+		}
+		if flagPos == nil {
+			flagPos = fd
+		}
+		if flag {
+			c.check(okFlag && nFalse >= 1, key+"-open-flag", flagPos.Pos(), "Collect returns false exactly when its queue was closed", "Collect's second result is no longer `false iff the queue was closed`: a worker that exits on false stops serving an open queue (every later store submission hangs), or never notices the close")
+		}
+		leak, nClear := pendingFlow(g, set, clear, clearEdge, nil)
+		switch {
+		case nClear == 0:
+			c.bad(key, fd.Pos(), "Collect never appends the submission it received to the batch")
+		case leak != nil:
+			c.bad(key, leak.Pos(), "Collect can return (or receive the next submission) while a submission it took from the queue has not been added to the batch: that request is never answered")
+		default:
+			c.ok(key, fd.Pos(), "every received submission is appended to the batch before Collect returns")
+		}
+	}
+}
+
+// ruleKernelQueues (C12): the two kernel queues hand every accepted entry on exactly once.
+//   - api.Shutdown sets the shutdown flag to true; api.EnqueueSQE sends only on the branch where
+//     the flag is false and refuses with "shutting down" only where it is true;
+//   - api.DequeueSQE / aio.DequeueCQE: the entry parked in the hand-over buffer is put into the
+//     returned batch and the buffer is cleared (once), on every path; an entry received from the
+//     channel is appended before the function returns.
+func ruleKernelQueues(c *Ctx) {
+	// shutdown flag polarity
+	if pk := c.P.Pkg(pkgIApi); pk != nil {
+		info := pk.TypesInfo
+		done := funcDecl(pk, "api", "Done")
+		shut := funcDecl(pk, "api", "Shutdown")
+		enq := funcDecl(pk, "api", "EnqueueSQE")
+		if done == nil || shut == nil || enq == nil {
+			c.und("kernel-queues/shutdown-flag", 0, "api.Done / Shutdown / EnqueueSQE not found")
+		} else {
+			// the flag: the boolean field Done() reads
+			flag := ""
+			ast.Inspect(done.Body, func(n ast.Node) bool {
+				if se, ok := n.(*ast.SelectorExpr); ok {
+					if tv, ok := info.Types[se]; ok {
+						if b, ok := tv.Type.Underlying().(*types.Basic); ok && b.Kind() == types.Bool {
+							flag = se.Sel.Name
+						}
+					}
+				}
+				return true
+			})
+			setsTrue := false
+			ast.Inspect(shut.Body, func(n ast.Node) bool {
+				if as, ok := n.(*ast.AssignStmt); ok && len(as.Lhs) == 1 && len(as.Rhs) == 1 {
+					if se, ok := as.Lhs[0].(*ast.SelectorExpr); ok && se.Sel.Name == flag && exprString(as.Rhs[0]) == "true" {
+						setsTrue = true
+					}
+				}
+				return true
+			})
+			c.check(flag != "" && setsTrue, "kernel-queues/shutdown-sets-flag", shut.Pos(), "Shutdown sets the flag Done() reads to true", "api.Shutdown no longer sets the shutdown flag to true: requests are accepted forever and the loop never finishes (or Done() is true from the start)")
+			g := buildCFG(pk, enq.Body)
+			edge := func(b *cfg.Block, i int) []string {
+				if len(b.Succs) != 2 || len(b.Nodes) == 0 {
+					return nil
+				}
+				cond, ok := b.Nodes[len(b.Nodes)-1].(ast.Expr)
+				if !ok {
+					return nil
+				}
+				cond = ast.Unparen(cond)
+				neg := false
+				if u, ok := cond.(*ast.UnaryExpr); ok && u.Op.String() == "!" {
+					neg, cond = true, ast.Unparen(u.X)
+				}
+				se, ok := cond.(*ast.SelectorExpr)
+				if !ok || se.Sel.Name != flag {
+					return nil
+				}
+				if (i == 0) != neg {
+					return []string{"flag:true"}
+				}
+				return []string{"flag:false"}
+			}
+			isSend := func(n ast.Node) bool { _, ok := n.(*ast.SendStmt); return ok }
+			refuses := func(n ast.Node) bool {
+				f := false
+				ast.Inspect(n, func(x ast.Node) bool {
+					if id, ok := x.(*ast.Ident); ok && id.Name == "StatusSystemShuttingDown" {
+						f = true
+					}
+					return true
+				})
+				_, isFn := n.(*ast.FuncLit)
+				return f && !isFn
+			}
+			facts := mustFacts(g, func(ast.Node) []string { return nil }, edge, func(n ast.Node) bool { return isSend(n) || refuses(n) })
+			okSend, okRefuse, nSend, nRefuse := true, true, 0, 0
+			for n, f := range facts {
+				if isSend(n) {
+					nSend++
+					if !f["flag:false"] {
+						okSend = false
+					}
+				}
+				if refuses(n) {
+					nRefuse++
+					if !f["flag:true"] {
+						okRefuse = false
+					}
+				}
+			}
+			c.check(okSend && nSend >= 1, "kernel-queues/accept-only-while-open", enq.Pos(), "a request is queued only on the branch where the shutdown flag is false", "api.EnqueueSQE can queue a request although shutdown was requested (the flag is not known to be false at the send): it is accepted after the loop may have observed Done() and is never answered")
+			c.check(okRefuse && nRefuse >= 1, "kernel-queues/refuse-only-when-shutting-down", enq.Pos(), "the shutting-down refusal is answered only where the flag is true", "api.EnqueueSQE answers `shutting down` on a path where shutdown was not requested (or never refuses)")
+		}
+	}
+	// hand-over buffers and channel drains
+	for _, t := range []struct{ pkg, recv, fn string }{{pkgIApi, "api", "DequeueSQE"}, {pkgIAio, "aio", "DequeueCQE"}} {
+		pk := c.P.Pkg(t.pkg)
+		if pk == nil {
+			continue
+		}
+		fd := funcDecl(pk, t.recv, t.fn)
+		key := "kernel-queues/" + t.recv + "." + t.fn
+		if fd == nil {
+			c.und(key, 0, t.fn+" not found")
+			continue
+		}
+		info := pk.TypesInfo
+		c.receivedIsKept(pk, fd, key+"/received-kept", false)
+		var batch types.Object
+		if n := len(fd.Body.List); n > 0 {
+			if rs, ok := fd.Body.List[n-1].(*ast.ReturnStmt); ok && len(rs.Results) == 1 {
+				if id, ok := ast.Unparen(rs.Results[0]).(*ast.Ident); ok {
+					batch = info.Uses[id]
+				}
+			}
+		}
+		isBuf := func(e ast.Expr) bool {
+			se, ok := ast.Unparen(e).(*ast.SelectorExpr)
+			return ok && se.Sel.Name == "buffer"
+		}
+		g := buildCFG(pk, fd.Body)
+		gen := func(n ast.Node) []string {
+			as, ok := n.(*ast.AssignStmt)
+			if !ok || len(as.Lhs) != 1 || len(as.Rhs) != 1 {
+				return nil
+			}
+			if isBuf(as.Lhs[0]) && exprString(as.Rhs[0]) == "nil" {
+				return []string{"cleared"}
+			}
+			if isObj(info, as.Lhs[0], batch) {
+				if call, ok := ast.Unparen(as.Rhs[0]).(*ast.CallExpr); ok && exprString(call.Fun) == "append" && len(call.Args) == 2 && isObj(info, call.Args[0], batch) && isBuf(call.Args[1]) {
+					return []string{"appended"}
+				}
+			}
+			return nil
+		}
+		// bufEdge: on edge i of a block that ends in a nil test of the buffer, is the buffer empty?
+		bufEdge := func(b *cfg.Block, i int) (empty, known bool) {
+			if len(b.Succs) != 2 || len(b.Nodes) == 0 {
+				return false, false
+			}
+			cond, isExpr := b.Nodes[len(b.Nodes)-1].(ast.Expr)
+			if !isExpr {
+				return false, false
+			}
+			cond = ast.Unparen(cond)
+			neg := false
+			for {
+				u, isU := cond.(*ast.UnaryExpr)
+				if !isU || u.Op.String() != "!" {
+					break
+				}
+				neg, cond = !neg, ast.Unparen(u.X)
+			}
+			be, isBin := cond.(*ast.BinaryExpr)
+			if !isBin || !isBuf(be.X) || exprString(be.Y) != "nil" || (be.Op.String() != "==" && be.Op.String() != "!=") {
+				return false, false
+			}
+			empty = (be.Op.String() == "==") == (i == 0)
+			if neg {
+				empty = !empty
+			}
+			return empty, true
+		}
+		edge := func(b *cfg.Block, i int) []string {
+			if e, known := bufEdge(b, i); known && e {
+				return []string{"empty"}
+			}
+			return nil
+		}
+		nonEmptyEdge := func(b *cfg.Block, i int) bool {
+			e, known := bufEdge(b, i)
+			return known && !e
+		}
+		has := func(n ast.Node, f string) bool {
+			for _, x := range gen(n) {
+				if x == f {
+					return true
+				}
+			}
+			return false
+		}
+		never := func(ast.Node) bool { return false }
+		leakA, nA := pendingFlow(g, never, func(n ast.Node) bool { return has(n, "appended") }, nil, nil, nonEmptyEdge)
+		leakC, nC := pendingFlow(g, never, func(n ast.Node) bool { return has(n, "cleared") }, nil, nil, nonEmptyEdge)
+		// and nothing is appended / cleared where the buffer is known to be empty
+		emptyFacts := mustFacts(g, func(ast.Node) []string { return nil }, edge, func(n ast.Node) bool { return len(gen(n)) > 0 })
+		ok := leakA == nil && leakC == nil && nA == 1 && nC == 1
+		for _, f := range emptyFacts {
+			if f["empty"] {
+				ok = false
+			}
+		}
+		// the append precedes the clearing (clearing first would append nil)
+		var posApp, posClr token.Pos
+		ast.Inspect(fd.Body, func(n ast.Node) bool {
+			for _, f := range gen(n) {
+				if f == "appended" {
+					posApp = n.Pos()
+				}
+				if f == "cleared" {
+					posClr = n.Pos()
+				}
+			}
+			return true
+		})
+		c.check(ok && posApp.IsValid() && posClr.IsValid() && posApp < posClr, key+"/buffer-drained", fd.Pos(), "the parked entry is put into the batch, then the buffer is cleared, on every path", t.fn+" can return with the hand-over buffer's entry neither returned nor kept consistently (dropped: never answered; not cleared: answered twice)")
+	}
+}
+
+// ruleCQEWellFormed (C12/C13): the kernel asserts that a completion queue entry carries exactly one
+// of Completion and Error; an entry with neither is a failed assertion on the kernel goroutine. At
+// every EnqueueCQE(x) with a local entry x, on every path, x has been given a Completion or an Error
+// (in its literal or by assignment) — must-facts over the CFG of the function or function literal
+// that enqueues it. For the sender's Done callback, the reported success is the callback's argument.
+func ruleCQEWellFormed(c *Ctx) {
+	pkgs := append([]string{pkgSystem, pkgSqlite, pkgPostgres, pkgStore, pkgHttpPlugin}, workerPkgs...)
+	seen := map[string]bool{}
+	n := 0
+	for _, pp := range pkgs {
+		if seen[pp] {
+			continue
+		}
+		seen[pp] = true
+		pk := c.P.Pkg(pp)
+		if pk == nil {
+			continue
+		}
+		info := pk.TypesInfo
+		for _, fd := range allFuncDecls(pk) {
+			if fd.Body == nil || isTestFile(c.P, fd.Pos()) {
+				continue
+			}
+			bodies := []*ast.BlockStmt{fd.Body}
+			ast.Inspect(fd.Body, func(x ast.Node) bool {
+				if fl, ok := x.(*ast.FuncLit); ok {
+					bodies = append(bodies, fl.Body)
+				}
+				return true
+			})
+			occ := 0
+			for _, body := range bodies {
+				// enqueue calls directly in this body
+				var calls []*ast.CallExpr
+				ast.Inspect(body, func(x ast.Node) bool {
+					if fl, ok := x.(*ast.FuncLit); ok && fl.Body != body {
+						return false
+					}
+					if call, ok := x.(*ast.CallExpr); ok {
+						if se, ok := ast.Unparen(call.Fun).(*ast.SelectorExpr); ok && se.Sel.Name == "EnqueueCQE" && len(call.Args) == 1 {
+							if _, isId := ast.Unparen(call.Args[0]).(*ast.Ident); isId {
+								calls = append(calls, call)
+							}
+						}
+					}
+					return true
+				})
+				if len(calls) == 0 {
+					continue
+				}
+				g := buildCFG(pk, body)
+				gen := func(nd ast.Node) []string {
+					var fs []string
+					as, ok := nd.(*ast.AssignStmt)
+					if !ok {
+						return nil
+					}
+					for i, l := range as.Lhs {
+						if se, ok := ast.Unparen(l).(*ast.SelectorExpr); ok && (se.Sel.Name == "Error" || se.Sel.Name == "Completion") {
+							if id, ok := ast.Unparen(se.X).(*ast.Ident); ok {
+								if i < len(as.Rhs) {
+									if rid, isId := ast.Unparen(as.Rhs[i]).(*ast.Ident); isId && rid.Name == "nil" {
+										continue
+									}
+								}
+								fs = append(fs, "set:"+id.Name)
+							}
+						}
+						// x := &CQE{…, Error: e} / {…, Completion: c}
+						if id, ok := l.(*ast.Ident); ok && i < len(as.Rhs) {
+							r := ast.Unparen(as.Rhs[i])
+							if u, ok := r.(*ast.UnaryExpr); ok {
+								r = ast.Unparen(u.X)
+							}
+							if cl, ok := r.(*ast.CompositeLit); ok && isNamed(info.Types[cl].Type, pkgBus, "CQE") {
+								for _, el := range cl.Elts {
+									if kv, ok := el.(*ast.KeyValueExpr); ok && (exprString(kv.Key) == "Error" || exprString(kv.Key) == "Completion") {
+										fs = append(fs, "set:"+id.Name)
+									}
+								}
+							}
+						}
+					}
+					return fs
+				}
+				facts := mustFacts(g, gen, nil, func(nd ast.Node) bool {
+					for _, call := range calls {
+						if containsNode(nd, call) {
+							if _, isLit := nd.(*ast.FuncLit); !isLit {
+								return true
+							}
+						}
+					}
+					return false
+				})
+				for nd, f := range facts {
+					for _, call := range calls {
+						if !containsNode(nd, call) {
+							continue
+						}
+						id := ast.Unparen(call.Args[0]).(*ast.Ident)
+						// entries received ready-made (loop variables over Process's results, parameters) are
+						// the producer's business
+						if v, ok := info.Uses[id].(*types.Var); ok {
+							isLocalEntry := false
+							ast.Inspect(fd.Body, func(x ast.Node) bool {
+								if as, ok := x.(*ast.AssignStmt); ok {
+									for i, l := range as.Lhs {
+										if lid, ok := l.(*ast.Ident); ok && info.Defs[lid] == types.Object(v) && i < len(as.Rhs) {
+											r := ast.Unparen(as.Rhs[i])
+											if u, ok := r.(*ast.UnaryExpr); ok {
+												r = ast.Unparen(u.X)
+											}
+											if _, ok := r.(*ast.CompositeLit); ok {
+												isLocalEntry = true
+											}
+										}
+									}
+								}
+								return true
+							})
+							if !isLocalEntry {
+								continue
+							}
+						}
+						n++
+						occ++
+						key := fmt.Sprintf("cqe-well-formed/%s.%s#%d", pk.Name, funcName(fd), occ)
+						c.check(f["set:"+id.Name], key, call.Pos(), "the entry carries a Completion or an Error on every path to this enqueue", "the completion queue entry "+id.Name+" can be enqueued here with neither a Completion nor an Error: the kernel's `exactly one of completion / error` assertion fails on the kernel goroutine")
+					}
+				}
+			}
+		}
+	}
+	c.count("cqe_enqueues_checked", n)
+	c.floor("enqueues of a locally built completion entry", n, 6)
+	// sender: the Done callback reports its own argument
+	if pk := c.P.Pkg(pkgSender); pk != nil {
+		info := pk.TypesInfo
+		if fd := funcDecl(pk, "SenderWorker", "Process"); fd != nil {
+			ok := false
+			ast.Inspect(fd.Body, func(x ast.Node) bool {
+				fl, isLit := x.(*ast.FuncLit)
+				if !isLit || fl.Type.Params == nil || len(fl.Type.Params.List) == 0 || len(fl.Type.Params.List[0].Names) == 0 {
+					return true
+				}
+				p0 := info.Defs[fl.Type.Params.List[0].Names[0]]
+				ast.Inspect(fl.Body, func(y ast.Node) bool {
+					if cl, isCl := y.(*ast.CompositeLit); isCl && isNamed(info.Types[cl].Type, pkgTAio, "SenderCompletion") {
+						for _, el := range cl.Elts {
+							if kv, isKv := el.(*ast.KeyValueExpr); isKv && exprString(kv.Key) == "Success" && isObj(info, kv.Value, p0) {
+								ok = true
+							}
+						}
+					}
+					return true
+				})
+				return true
+			})
+			c.check(ok, "cqe-well-formed/sender-success", fd.Pos(), "the hand-off's completion reports the success the plugin reported", "the sender's completion no longer carries the plugin's success flag: every hand-off looks failed (retried for ever) or delivered (a failed one is marked enqueued)")
+		}
 	}
 }
